@@ -32,7 +32,7 @@ ASSUMPTIONS = [
     'error estimators: defect relative to ||x_i|| (Euler schemes) and to ||(I + h/2 A) x_i|| (trapezoidal rule), as implemented',
 ]
 
-DIMS = [d for d in [[2], [4], [6], [2, 2], [2, 3], [3, 3], [4, 4], [2, 2, 2], [3, 2, 2], [3, 3, 3], [2, 3, 4], [2, 2, 2, 2], [4, 4, 4], [2, 4, 4, 2]]
+DIMS = [d for d in [[2], [4], [6], [2, 2], [2, 3], [3, 3], [4, 4], [2, 2, 2], [3, 2, 2], [3, 3, 3], [2, 3, 4], [2, 2, 2, 2], [4, 4, 4], [2, 4, 4, 2], [2, 1, 3], [1, 3], [2, 1], [1, 2, 2], [3, 2, 1]]
         if int(np.prod(d)) <= NMAX]
 STEPS = st.sampled_from([0.01, 0.05, 0.1, 0.2, 0.35, 0.5])
 
@@ -354,7 +354,7 @@ def body_adaptive(c):
     sol, times = ode.adaptive_step_size(op, x0, guess, c['time_end'], step_size_first=c['first'], solver=c['solver'],
                                         second_method=c['second'], normalize=c['normalize'], progress=False)
     for t, s in snaps:
-        build.require_unchanged(t, s, 'argument of adaptive_step_size')
+        build.require_unchanged(t, s, 'argument of adaptive_step_size', strict=True)
     require(len(sol) == len(times), 'adaptive_lengths', '%d states but %d time points' % (len(sol), len(times)))
     require(times[0] == 0, 'adaptive_times', 'first time point %r' % (times[0],))
     for a, b in zip(times[:-1], times[1:]):
